@@ -1748,6 +1748,8 @@ func TestVerif_C19(t *testing.T) { vs.Check(t, func(rt *rapid.T) { qnRunOnce(t, 
 func TestVerif_C20(t *testing.T) { vs.Check(t, func(rt *rapid.T) { qnRunOnce(t, rt, "C20") }) }
 func TestVerif_C21(t *testing.T) { vs.Check(t, func(rt *rapid.T) { qnRunOnce(t, rt, "C21") }) }
 func TestVerif_C25(t *testing.T) { vs.Check(t, func(rt *rapid.T) { qnRunOnce(t, rt, "C25") }) }
+func TestVerif_C24_net(t *testing.T) { vs.Check(t, func(rt *rapid.T) { qnRunOnce(t, rt, "C24") }) }
+func TestVerif_C26_net(t *testing.T) { vs.Check(t, func(rt *rapid.T) { qnRunOnce(t, rt, "C26") }) }
 func TestVerif_C27(t *testing.T) { vs.Check(t, func(rt *rapid.T) { qnRunOnce(t, rt, "C27") }) }
 func TestVerif_C31(t *testing.T) { vs.Check(t, func(rt *rapid.T) { qnRunOnce(t, rt, "C31") }) }
 func TestVerif_C32(t *testing.T) { vs.Check(t, func(rt *rapid.T) { qnRunOnce(t, rt, "C32") }) }
